@@ -187,7 +187,7 @@ class PluginFixtures:
     def __enter__(self):
         _run.mods()
         if self.own_root:
-            self.root = tempfile.mkdtemp(prefix='pelfix', dir='/dev/shm' if os.path.isdir('/dev/shm') else None)
+            self.root = tempfile.mkdtemp(prefix='pelverif_%s_fix' % os.environ.get('PELVERIF_RUN_TAG', 'x'), dir='/dev/shm' if os.path.isdir('/dev/shm') else None)
         self.write(self.root)
         self.state = install_state()
         self.state.behaviour.clear()
